@@ -99,7 +99,7 @@ META.update({
         "category": "proof",
         "text": "PARTIAL (kernel mapping of the real gntdev trusted). Guard length = bytes covered and guard pointer = first byte for slices, refs and arrays (full strength after the fix: commit for the array guard); for on-demand Xen mappings the requested window is proved to cover "
                 "every byte of the guard for all page sizes/offsets/lengths and every access sequence leaves no mapping; at the system-call level an on-demand access leaves nothing behind and releases nothing twice whether it completes or the device refuses (C17x) (16 theorems). The correspondence run observes ptr_guard()/ptr_guard_mut() of every accessor kind and "
-                "element type in the standard build, and in the xen-feature build (hook H3) runs histories over UNIX, foreign, advance-mapped and on-demand grant regions checking that every touched byte range lies inside a window requested during the op, "
+                "element type in the standard build, and in the xen-feature build (hook H3) runs histories over UNIX, foreign, advance-mapped and on-demand grant regions checking that every page an operation touches lies inside a window requested during that operation (an operation performed as several accesses has one window per access), "
                 "that every window is released, that data lands at file offset ref*page+offset, plus forked probes of the guard-bypassing paths.",
         "design_ref": "DESIGN.md 6/C17", "note": PROOF_NOTE + "Xen half: emulated ioctls (hook H3), not a real Xen host.",
         "technique": "Lean 4 window arithmetic + differential run on guard extents (standard build)",
